@@ -16,6 +16,7 @@ inductive Instr where
   | acq | rel
   | set (g : String)
   | use (g : String)
+  | touch (g : String)     -- read-modify-write of persistent shared state (the parser cache, a parser build): needs the lock, is never reset
   deriving DecidableEq, Repr
 
 abbrev Val := Nat
@@ -44,6 +45,7 @@ def lockCovers : Bool → List Instr → Bool
   | held, .rel :: p => held && lockCovers false p
   | held, .set _ :: p => held && lockCovers held p
   | held, .use _ :: p => held && lockCovers held p
+  | held, .touch _ :: p => held && lockCovers held p
 
 /-! ### the parser cache -/
 structure Key where
@@ -92,6 +94,7 @@ def sectionOK : Bool → List String → List Instr → Bool
   | h, _, .rel :: p => h && sectionOK false [] p
   | h, d, .set g :: p => h && sectionOK h (g :: d) p
   | h, d, .use g :: p => h && d.contains g && sectionOK h d p
+  | h, d, .touch _ :: p => h && sectionOK h d p
 
 structure Thread where
   todo : List Instr
@@ -114,6 +117,7 @@ def stepT (args : Nat → String → Val) (s : Sys) (t : Nat) : Sys :=
   | .set g :: p =>
     { s with store := fun y => if y = g then args t g else s.store y, th := upd s.th t { todo := p, tr := (s.th t).tr } }
   | .use g :: p => { s with th := upd s.th t { todo := p, tr := (s.th t).tr ++ [s.store g] } }
+  | .touch _ :: p => { s with th := upd s.th t { todo := p, tr := (s.th t).tr } }
 
 def runSched (args : Nat → String → Val) (s : Sys) (sched : List Nat) : Sys := sched.foldl (stepT args) s
 
